@@ -20,5 +20,5 @@ def main():
     e2prop.run_e2(chk, e2prop.e2_harness_path('c01u_e2.cpp'), 'c01u_e2', timeout=60, harness_args=['--bounds', '1'], max_group=1)
     return chk.finish(
         explanation='Bounded symbolic check: the real LAFEM matrix classes are instantiated with a symbolic real scalar and executed on every shape/pattern/aliasing configuration inside the bound; for each configuration z3 decides, over ALL real matrix values, vectors and alpha, that the result equals the dense product and operands are unmodified.',
-        rule='one obligation = one result component (or operand component) identity of one configuration; non-trivial = lhs and rhs are different DAG terms and z3 returned unsat',
+        rule='one obligation = one result component (or operand component) identity of one configuration; distinct_nontrivial counts structural facts plus identities whose lhs and rhs are different DAG terms and for which z3 returned unsat (identical hash-consed terms are discharged syntactically, not counted)',
         trusted=TRUSTED)
